@@ -72,7 +72,7 @@ _m(
         "gc.freeze() is called once in the harness process so that the two gc.collect() calls inside reconstruct cost ~1 ms "
         "instead of ~0.1 s; nothing in quantem is patched",
     ],
-    workers=(1, 16),
+    workers=(2, 16),
     technique="property-based testing (Hypothesis): metamorphic relations on generated configurations (batch-size invariance on a "
     "re-used instance with a call history, linearity in the stack, weighted recombination of complementary sub-masks, sub-mask "
     "vs fresh instance) "
